@@ -765,6 +765,7 @@ func (obj *SparseReal32MatrixJointIterator) Ok() bool {
          !(obj.s2 == nil || obj.s2.GetFloat32() == float32(0))
 }
 func (obj *SparseReal32MatrixJointIterator) Next() {
+next:
   ok1 := obj.it1.Ok()
   ok2 := obj.it2.Ok()
   obj.s1 = nil
@@ -784,6 +785,8 @@ func (obj *SparseReal32MatrixJointIterator) Next() {
       obj.s2 = obj.it2.GetConst()
     }
   }
+  // true if at least one iterator is advanced below
+  advanced := obj.s1 != nil || obj.s2 != nil
   if obj.s1 != nil {
     obj.it1.Next()
   }
@@ -791,6 +794,11 @@ func (obj *SparseReal32MatrixJointIterator) Next() {
     obj.it2.Next()
   } else {
     obj.s2 = ConstFloat32(0.0)
+  }
+  // skip positions where all elements are zero, stop only when
+  // all iterators are exhausted
+  if !obj.Ok() && advanced {
+    goto next
   }
 }
 func (obj *SparseReal32MatrixJointIterator) Get() (Scalar, ConstScalar) {
@@ -846,6 +854,7 @@ func (obj *SparseReal32MatrixJoint3Iterator) Ok() bool {
          !(obj.s3 == nil || obj.s3.GetFloat32() == 0.0)
 }
 func (obj *SparseReal32MatrixJoint3Iterator) Next() {
+next:
   ok1 := obj.it1.Ok()
   ok2 := obj.it2.Ok()
   ok3 := obj.it3.Ok()
@@ -881,6 +890,8 @@ func (obj *SparseReal32MatrixJoint3Iterator) Next() {
       obj.s3 = obj.it3.GetConst()
     }
   }
+  // true if at least one iterator is advanced below
+  advanced := obj.s1 != nil || obj.s2 != nil || obj.s3 != nil
   if obj.s1 != nil {
     obj.it1.Next()
   }
@@ -893,6 +904,11 @@ func (obj *SparseReal32MatrixJoint3Iterator) Next() {
     obj.it3.Next()
   } else {
     obj.s3 = ConstFloat32(0.0)
+  }
+  // skip positions where all elements are zero, stop only when
+  // all iterators are exhausted
+  if !obj.Ok() && advanced {
+    goto next
   }
 }
 func (obj *SparseReal32MatrixJoint3Iterator) Get() (Scalar, ConstScalar, ConstScalar) {
